@@ -42,3 +42,27 @@ Definition check_all := check_all_from 0%N.
 (* number of guarded steps over all cases (reported in the evidence) *)
 Definition guard_count (cs : list case) : N :=
   fold_left (fun acc c => (acc + N.of_nat (guard_prefix PK NM (sinit 0%N) (fst c)))%N) cs 0%N.
+
+(* ---- histories with qualified writes (xop): the same codes over xrun / sxrun / xguard_prefix; this is what
+   the shards evaluate.  Code 3 is proved unreachable for these too (C13_xselfcheck_unreachable). ---- *)
+Definition xcase := (list xop * list (list qres))%type.
+Definition xcheck_case (c : xcase) : N :=
+  let m := xrun PK VN FN (init 0%N) (fst c) in
+  let g := xguard_prefix PK NM (sinit 0%N) (fst c) in
+  let sp := sxrun PK VN FN (sinit 0%N) (fst c) in
+  if list_eqb (list_eqb qres_eqb) m (snd c) then
+    if list_eqb (list_eqb qres_eqb) (firstn g m) (firstn g sp) then 0%N else 3%N
+  else if list_eqb (list_eqb qres_eqb) (firstn g (snd c)) (firstn g sp) then 1%N else 2%N.
+Fixpoint xcheck_all_from (i : N) (cs : list xcase) : list (N * N) :=
+  match cs with
+  | [] => []
+  | c :: cs' => let r := xcheck_case c in
+                (if N.eqb r 0 then [] else [(i, r)]) ++ xcheck_all_from (N.succ i) cs'
+  end.
+Definition xcheck_all := xcheck_all_from 0%N.
+Definition xguard_count (cs : list xcase) : N :=
+  fold_left (fun acc c => (acc + N.of_nat (xguard_prefix PK NM (sinit 0%N) (fst c)))%N) cs 0%N.
+(* number of qualified writes inside the guarded prefixes *)
+Definition is_qualified (o : xop) : bool := match o with XB _ => false | _ => true end.
+Definition xqual_count (cs : list xcase) : N :=
+  fold_left (fun acc c => (acc + N.of_nat (List.length (filter is_qualified (firstn (xguard_prefix PK NM (sinit 0%N) (fst c)) (fst c)))))%N) cs 0%N.
